@@ -4,6 +4,8 @@ import itertools
 from collections import Counter
 
 PROP = "C09"
+# kernels regenerated from /repo's source (tools/py2lean.py) vs the hand model, exhaustive small scope, inside Lean
+TWIN_CHECKS = [{"op": "twin.bpe_exhaustive", "n": 6}]
 RULE = ("corpora of short strings: all strings over {a,b,c} up to a length bound as singleton corpora, "
         "random pairs/triples of them, random unicode corpora (code points above max_char_code in the "
         "transform inputs), repeated characters; max_vocab_size in {1,2,3,10}; transform inputs = training "
